@@ -311,6 +311,8 @@ pub fn parse_multi_branch_conditional(
             let header = header.trim_start();
             if let Some(rest) = header.strip_prefix("else:") {
                 current_condition = None;
+                // Every branch of a multi-line conditional starts on a new line.
+                current_nodes.push(Node::Newline);
                 if !rest.trim().is_empty() {
                     current_nodes.extend(tokenize_inline_content(rest.trim())?);
                     if line.had_newline {
@@ -369,6 +371,9 @@ pub fn parse_multi_branch_conditional(
                 }
             };
             current_condition = Some(parse_condition(condition.trim())?);
+            // Every branch of a multi-line conditional starts on a new line
+            // (inklecate opens each branch container with "\n").
+            current_nodes.push(Node::Newline);
             let rest_trimmed = rest.trim();
             if !rest_trimmed.is_empty() {
                 if rest_trimmed.starts_with('*') || rest_trimmed.starts_with('+') {
